@@ -127,7 +127,17 @@ def has_safe_repr(value: t.Any) -> bool:
     if value is None or value is NotImplemented or value is Ellipsis:
         return True
 
-    if type(value) in {bool, int, float, complex, range, str, Markup}:
+    if type(value) is int:
+        # Converting a huge int to text is refused by Python
+        # (sys.set_int_max_str_digits), such a value has no repr.
+        try:
+            repr(value)
+        except ValueError:
+            return False
+
+        return True
+
+    if type(value) in {bool, float, complex, range, str, Markup}:
         return True
 
     if type(value) in {tuple, list, set, frozenset}:
